@@ -215,6 +215,65 @@ pub fn run(prop: &str, tier: &str, replay: Option<&str>) -> i32 {
         });
         rep.add(sec);
     }
+    // (a3) issuer provenance: the issuer certificate object was itself issued (directly or from a parsed CSR)
+    {
+        let inter_z = keys.get(KeyKind::P256, "_1");
+        let inter_kp = rc_load(inter_z, Alg::EcP256).unwrap();
+        let cases: Vec<(usize, usize, usize, bool)> = (0..2usize).flat_map(|prov| (0..4usize).flat_map(move |ik| (0..4usize).flat_map(move |rk| [(prov, ik, rk, false), (prov, ik, rk, true)]))).collect();
+        let sec = Section::new("rcgen-issuers/issuer provenance", "root -> intermediate -> leaf where the intermediate Certificate object was produced by CertificateParams::signed_by or by CertificateSigningRequestParams::signed_by (2) x intermediate key-id method (4) x root key-id method (4) x leaf issued directly / from a parsed CSR (2): the leaf is judged against the intermediate's DER and the whole chain by OpenSSL + webpki");
+        run::sweep_cases(&sec, &cases, &|c| format!("intermediate via {} kid={:?}; root kid={:?}; leaf via csr={}", ["signed_by", "parsed CSR"][c.0], kids[c.1], kids[c.2], c.3), &|c| {
+            let mut out = Outcome::default();
+            let mut root_st = CertState::default();
+            root_st.dn = DnSpec(vec![(DnTypeSpec::O, StrKind::Utf8, "Prov".into()), (DnTypeSpec::Cn, StrKind::Utf8, "root".into())]);
+            root_st.is_ca = IsCaSpec::Unconstrained;
+            root_st.key_usages = vec![5, 6];
+            root_st.key_id = kids[c.2].clone();
+            root_st.not_before = TimeSpec::ymd(2000, 1, 1);
+            root_st.not_after = TimeSpec::ymd(2100, 1, 1);
+            let mut inter_st = root_st.clone();
+            inter_st.dn = DnSpec(vec![(DnTypeSpec::O, StrKind::Utf8, "Prov".into()), (DnTypeSpec::Cn, StrKind::Printable, "intermediate".into())]);
+            inter_st.key_id = kids[c.1].clone();
+            inter_st.use_aki = true;
+            inter_st.is_ca = IsCaSpec::Constrained(0);
+            let r = guarded(|| -> Result<(Vec<u8>, Vec<u8>, Vec<u8>), rcgen::Error> {
+                let root = to_params(&root_st).unwrap().self_signed(&ca_kp)?;
+                let inter = if c.0 == 0 {
+                    to_params(&inter_st).unwrap().signed_by(&inter_kp, &root, &ca_kp)?
+                } else {
+                    let csr = rcgen::CertificateParams::default().serialize_request(&inter_kp)?;
+                    let mut parsed = rcgen::CertificateSigningRequestParams::from_der(csr.der())?;
+                    parsed.params = to_params(&inter_st).unwrap();
+                    parsed.signed_by(&root, &ca_kp)?
+                };
+                let leaf = if c.3 { issue_via_csr(&leaf_kp, &inter, &inter_kp)? } else { to_params(&leaf_state(&KeyIdSpec::Sha256)).unwrap().signed_by(&leaf_kp, &inter, &inter_kp)?.der().to_vec() };
+                Ok((root.der().to_vec(), inter.der().to_vec(), leaf))
+            });
+            out.transitions = 60;
+            match r {
+                Ok(Ok((root_der, inter_der, leaf_der))) => {
+                    out.digest = fnv(&leaf_der) ^ fnv(&inter_der);
+                    // the intermediate against the root, the leaf against the intermediate
+                    // (webpki refuses to treat a CA certificate as the end entity: OpenSSL only for this hop)
+                    judge_chain(&inter_der, &root_der, true, true, false, &mut out.findings);
+                    let mut f2 = Vec::new();
+                    judge_chain(&leaf_der, &inter_der, true, false, false, &mut f2);
+                    if let Err(e) = openssl_chain(&leaf_der, &[inter_der.clone()], &root_der, T_VERIFY, Purpose::Any, false) {
+                        f2.push(Finding::new("CHAIN-OPENSSL-REJECTS", "chain", e));
+                    }
+                    if let Err(e) = webpki_chain(&leaf_der, &[inter_der.clone()], &root_der, T_VERIFY, Purpose::Server) {
+                        f2.push(Finding::new("CHAIN-WEBPKI-REJECTS", "chain", e));
+                    }
+                    out.findings.extend(f2.into_iter().map(|mut f| {
+                        f.locus = format!("{} (leaf under an issued intermediate)", f.locus);
+                        f
+                    }));
+                }
+                other => out.unexpected_err = Some(format!("{:?}", other.map(|r| r.map(|_| ())))),
+            }
+            out
+        });
+        rep.add(sec);
+    }
     // (a2) key algorithms on either side, names of <= 1 attribute
     {
         let mut loadable: Vec<(&ZooKey, Alg)> = Vec::new();
